@@ -4,7 +4,7 @@ C20 — the LIS deep test `bin_file_type._lis`, written out with the reader mode
 
     for pr_limit in (100, 0):
         d = File.scan_file_with_different_padding(fobj, keep_going=True, pr_limit=pr_limit)
-        for pr_settings in File.ret_padding_options_with_max_records(d):
+        for pr_settings in sorted(d, key=d.get, reverse=True):
             if d[pr_settings] == 0: break
             try:
                 lis_file = File.FileRead(fobj, '', True, *pr_settings)
@@ -12,7 +12,7 @@ C20 — the LIS deep test `bin_file_type._lis`, written out with the reader mode
             except (ExceptionTotalDepthLIS, struct.error, ArithmeticError): pass
     return ''
 
-* `TD.C05.scanAll true b limit` is the pad-option scan, `TD.C05.retMax` the options with the maximal count in dict order;
+* `TD.C05.scanAll true b limit` is the pad-option scan (dict items in insertion order), `sortDesc` the stable sort by decreasing count;
 * the logical records the index is built from are obtained from that reader by the history
   `readLrBytes(-1); tellLr()` repeated until the end — `FileIndex` itself reads headers, sub-structures and skips, but
   `TD.C05.read_refines` holds for EVERY history, so on written files any history yields the same bytes at the same
@@ -63,11 +63,19 @@ def lisTryOption (b : Bytes) (o : Nat × Bool) : Option LisRes :=
   | .ok r => r
   | .error _ => none
 
-/-- `for pr_settings in ret_padding_options_with_max_records(d): if d[pr_settings] == 0: break` — the options that get
-tried in one round, in dict order -/
+/-- insertion into a list sorted by decreasing count, before the first element whose count is not larger: an element
+that came earlier in the dict stays in front of later ones with the same count (Python's `sorted` is stable) -/
+def insertDesc (x : (Nat × Bool) × Nat) : List ((Nat × Bool) × Nat) → List ((Nat × Bool) × Nat)
+  | [] => [x]
+  | y :: r => if y.2 > x.2 then y :: insertDesc x r else x :: y :: r
+
+/-- `sorted(d, key=d.get, reverse=True)` on the dict items in insertion order -/
+def sortDesc (c : List ((Nat × Bool) × Nat)) : List ((Nat × Bool) × Nat) := c.foldr insertDesc []
+
+/-- `for pr_settings in sorted(d, key=d.get, reverse=True): if d[pr_settings] == 0: break` — the options that get tried in
+one round: every option that read at least one physical record, best count first, ties in dict order -/
 def lisTried (b : Bytes) (limit : Nat) : List (Nat × Bool) :=
-  let c := TD.C05.scanAll true b limit
-  (TD.C05.retMax c).takeWhile (fun o => (c.lookup o).getD 0 != 0)
+  ((sortDesc (TD.C05.scanAll true b limit)).takeWhile (fun x => x.2 != 0)).map (·.1)
 
 def firstSome {α β : Type} (f : α → Option β) : List α → Option β
   | [] => none
